@@ -67,6 +67,14 @@ func Main(r *evid.Run, n int, perChildTimeout time.Duration, minDistinct int, f 
 // RunScenarios is Main without the final Finish, for programs that combine
 // several parts. In a child process it runs the scenario and exits.
 func RunScenarios(r *evid.Run, n int, perChildTimeout time.Duration, f ScenarioFunc) {
+	RunScenariosCB(r, n, perChildTimeout, f, nil)
+}
+
+// RunScenariosCB is RunScenarios with a callback that sees every child Result
+// in the parent (after it was folded into r), so that a program combining
+// several parts can keep its own tallies of one part. cb may be nil; it is
+// called from several goroutines.
+func RunScenariosCB(r *evid.Run, n int, perChildTimeout time.Duration, f ScenarioFunc, cb func(*Result)) {
 	if ks := os.Getenv("VERIF_CHILD_SCENARIO"); ks != "" {
 		var k int
 		fmt.Sscan(ks, &k)
@@ -95,7 +103,7 @@ func RunScenarios(r *evid.Run, n int, perChildTimeout time.Duration, f ScenarioF
 		go func() {
 			defer wg.Done()
 			for k := range jobs {
-				runChild(r, k, perChildTimeout)
+				runChild(r, k, perChildTimeout, cb)
 			}
 		}()
 	}
@@ -106,7 +114,7 @@ func RunScenarios(r *evid.Run, n int, perChildTimeout time.Duration, f ScenarioF
 	wg.Wait()
 }
 
-func runChild(r *evid.Run, k int, timeout time.Duration) {
+func runChild(r *evid.Run, k int, timeout time.Duration, cb func(*Result)) {
 	exe, _ := os.Executable()
 	cmd := exec.Command(exe, "-tier", r.Tier, "-seed", fmt.Sprint(r.Seed))
 	cmd.Env = append(os.Environ(), fmt.Sprintf("VERIF_CHILD_SCENARIO=%d", k))
@@ -182,6 +190,9 @@ func runChild(r *evid.Run, k int, timeout time.Duration) {
 	}
 	if res.Sample != nil {
 		r.Sample(res.Sample)
+	}
+	if cb != nil {
+		cb(res)
 	}
 }
 
